@@ -111,6 +111,13 @@ def c20(res, st):
     for _ in range(100 if res.tier == "quick" else 2000):
         inputs.append(gens.token_soup(rnd, rnd.randrange(1, 12)).replace(b" ", rnd.choice([b" ", b"\n", b"\r\n"])))
     inputs += gens.regression("C20")
+    # multi-byte characters on the line of a PARSER error (columns count bytes), and sentences with such characters damaged at every place
+    inputs += gens.MULTIBYTE_BEFORE_ERROR
+    for base in (b"SELECT '\xc3\xa9' AS `\xe6\x97\xa5` , f ( \"\xf0\x9f\x98\x80\" ) /* \xc3\xa9 */ FROM t WHERE a = '\xe2\x82\xac' ORDER BY 1",):
+        toks = base.split(b" ")
+        for i in range(len(toks)):
+            inputs.append(b" ".join(toks[:i] + toks[i + 1:]))
+            inputs.append(b" ".join(toks[:i] + [b")"] + toks[i:]))
     lines = vlib.run_lines(vlib.HARNESS, ["errs-of"], "\n".join(hexs(s) for s in inputs) + "\n")
     lines = sorted(set(lines))
     got = [l.split(" | ")[1] for l in lines]
@@ -203,6 +210,9 @@ def escape_matrix():
     return out
 
 
+CONTEXT_PREFIXES = [b"/*", b"a.", b"1e"]
+
+
 def lexer_correspondence(res, mode, proj, oracle, label, on_oracle_fail, exh_len=None):
     """exhaustive + sampled comparison Go lexer vs extracted model under a projection; oracle failures are
     concrete violations; remaining disagreements break the correspondence obligation."""
@@ -214,6 +224,11 @@ def lexer_correspondence(res, mode, proj, oracle, label, on_oracle_fail, exh_len
     total += r["n"]; mism += r["mismatches"]; fails = list(r["fails"]); multi_exh = r["three_records"]
     for pre in LIT_PREFIXES:
         r = vlib.lex_exhaustive(ESC_ALPHABET, 4 if res.tier == "quick" else 5, mode, pre, proj, oracle)
+        total += r["n"]; mism += r["mismatches"]; fails += r["fails"]; multi_exh += r["three_records"]
+    # the same alphabet inside a context: after a comment opener (runs of '*' of either parity before the closer), after a path dot
+    # (field names that look like literal prefixes), after a number (exponent forms)
+    for pre in CONTEXT_PREFIXES:
+        r = vlib.lex_exhaustive(gens.LEX_ALPHABET, 4 if res.tier == "quick" else 5, mode, pre, proj, oracle)
         total += r["n"]; mism += r["mismatches"]; fails += r["fails"]; multi_exh += r["three_records"]
     ins = lexer_inputs(rnd, res.tier, res.pid)
     g, m = vlib.lex_cases(ins, mode, proj)
@@ -268,6 +283,9 @@ def c14(res, st):
     total += r["n"]; mism += r["mismatches"]; multi_exh = r["three_records"]
     for pre in LIT_PREFIXES:
         r = vlib.lex_exhaustive(ESC_ALPHABET, 4 if res.tier == "quick" else 5, "p", pre, "c14r", "-")
+        total += r["n"]; mism += r["mismatches"]; multi_exh += r["three_records"]
+    for pre in CONTEXT_PREFIXES:
+        r = vlib.lex_exhaustive(gens.LEX_ALPHABET, 4 if res.tier == "quick" else 5, "p", pre, "c14r", "-")
         total += r["n"]; mism += r["mismatches"]; multi_exh += r["three_records"]
     ins = escape_matrix() + lexer_inputs(rnd, res.tier, "C14")
     g, m = vlib.lex_cases(ins, "p", "c14r")
